@@ -214,7 +214,7 @@ pub fn run(ctx: &Ctx) -> RunResult {
         "a sample is the time between send_request and the on_buffer_recv that completes the transaction".into(),
     ];
     let max = ctx.pick(60, 300);
-    rr.absorb(run_prop(ctx, "rtt", ctx.pick(6_000, 60_000), move || arb_case(max), |c, st| check_rtt(c, st)));
+    rr.absorb(run_prop(ctx, "rtt", ctx.pick(40_000, 200_000), move || arb_case(max), |c, st| check_rtt(c, st)));
     rr
 }
 
